@@ -34,6 +34,8 @@ type replayFile struct {
 type assumeFailed struct{ what string }
 type assertFailed struct{ label string }
 
+var envCtr uint64 = 88172645463325252
+
 var (
 	mu      sync.Mutex
 	rf      *replayFile
@@ -88,6 +90,25 @@ func Choose(tag string, n int) int { return next(tag, "choice").N }
 
 // Bytes returns a byte slice of every length in minLen..maxLen with arbitrary contents.
 func Bytes(tag string, minLen, maxLen int) []byte {
+	if strings.HasPrefix(tag, "env:") {
+		// environment values (randomness, generated keys): use the recorded value when the native run
+		// asks for it at the same point with a fitting length, otherwise arbitrary bytes
+		mu.Lock()
+		if rf != nil && pos < len(rf.Inputs) && rf.Inputs[pos].Kind == "bytes" && strings.HasPrefix(rf.Inputs[pos].Tag, tag+"#") && len(rf.Inputs[pos].Hex) >= 2*minLen && len(rf.Inputs[pos].Hex) <= 2*maxLen {
+			it := rf.Inputs[pos]
+			pos++
+			mu.Unlock()
+			b, _ := hex.DecodeString(it.Hex)
+			return b
+		}
+		mu.Unlock()
+		b := make([]byte, minLen)
+		for i := range b {
+			envCtr = envCtr*6364136223846793005 + 1442695040888963407
+			b[i] = byte(envCtr >> 33)
+		}
+		return b
+	}
 	it := next(tag, "bytes")
 	b, _ := hex.DecodeString(it.Hex)
 	if b == nil {
